@@ -1,6 +1,8 @@
 import GluonModel.Sexp
 import GluonModel.Share
 import GluonModel.Loader
+import GluonModel.LoadVerify
+import GluonModel.ModuleRec
 open GluonModel GluonModel.Share
 
 /-- sorts of the protocol: `d` GcPtr<DataStruct>, `a` GcPtr<ValueArray>, `f` Arc<[InternedStr]> -/
@@ -8,12 +10,14 @@ def sortOfAtom : String → Nat
   | "d" => 0
   | "a" => 1
   | "f" => 2
+  | "c" => 4
   | _ => 3
 
 def sortName : Nat → String
   | 0 => "d"
   | 1 => "a"
   | 2 => "f"
+  | 4 => "c"
   | _ => "?"
 
 partial def parseT : Sexp → Option T
@@ -23,6 +27,14 @@ partial def parseT : Sexp → Option T
     let uniq ← uniq.toNat?
     let ks ← kids.mapM parseT
     pure (.node addr (uniq != 0) (sortOfAtom s) ks)
+  -- a closure; the function part (read before the allocation) is elided on both sides
+  | .list (.atom "c" :: addr :: .atom s :: kids) => do
+    let addr ← addr.toNat?
+    let ks ← kids.mapM parseT
+    pure (.clo addr (sortOfAtom s) [] ks)
+  | .list [.atom "p", addr, .atom s] => do
+    let addr ← addr.toNat?
+    pure (.ptr addr (sortOfAtom s))
   | _ => none
 
 partial def parseD : Sexp → Option D
@@ -36,6 +48,10 @@ partial def parseD : Sexp → Option D
   | .list [.atom "R", .atom s, id] => do
     let id ← id.toNat?
     pure (.ref (sortOfAtom s) id)
+  | .list (.atom "C" :: .atom s :: id :: kids) => do
+    let id ← id.toNat?
+    let ks ← kids.mapM parseD
+    pure (.cmarked (sortOfAtom s) id 0 ks)
   | _ => none
 
 /-- The Marked/Plain/Reference skeleton (atoms are not part of the protocol). -/
@@ -45,6 +61,8 @@ partial def renderD : D → List String
     ["(" ++ " ".intercalate (["M", sortName s, toString id] ++ (ks.map renderD).flatten) ++ ")"]
   | .plain s ks => ["(" ++ " ".intercalate (["P", sortName s] ++ (ks.map renderD).flatten) ++ ")"]
   | .ref s id => ["(R " ++ sortName s ++ " " ++ toString id ++ ")"]
+  | .cmarked s id _ ks =>
+    ["(" ++ " ".intercalate (["C", sortName s, toString id] ++ (ks.map renderD).flatten) ++ ")"]
 
 def okPattern (d : D) : String := "(" ++ " ".intercalate ("ok" :: renderD d) ++ ")"
 
@@ -53,10 +71,36 @@ def answerDe (toks : List Tok) : String :=
   | .ok t => okPattern (serD [] t).1
   | .error (.missing id) => "(missing " ++ toString id ++ ")"
   | .error .eof => "eof"
+  | .error .invalid => "invalid"
 
 def topD : List Sexp → Option D
   | [] => some (.atom 0)
   | [x] => parseD x
+  | _ => none
+
+open GluonModel.LoadVerify in
+def parseVInstr : Sexp → Option VInstr
+  | .atom "x" => some ⟨.pushc, .none⟩
+  | .atom "ret" => some ⟨.ret, .none⟩
+  | .atom "tc" => some ⟨.tailcall 0, .none⟩
+  | .list [.atom "j", t] => do pure ⟨.jump (← t.toNat?), .none⟩
+  | .list [.atom "cj", t] => do pure ⟨.cjump (← t.toNat?), .none⟩
+  | .list [.atom "s", i] => do pure ⟨.pushc, .string (← i.toNat?)⟩
+  | .list [.atom "r", i, a] => do pure ⟨.pushc, .record (← i.toNat?) (← a.toNat?)⟩
+  | .list [.atom "u", i] => do pure ⟨.pushc, .upvar (← i.toNat?)⟩
+  | .list [.atom "c", j, u] => do pure ⟨.pushc, .closure (← j.toNat?) (← u.toNat?)⟩
+  | _ => none
+
+open GluonModel.LoadVerify in
+partial def parseVFn : Sexp → Option VFn
+  | .list [.atom "fn", mx, up, ns, .list recs, .list code, .list inner] => do
+    let mx ← mx.toNat?
+    let up ← up.toNat?
+    let ns ← ns.toNat?
+    let recs ← recs.mapM Sexp.toNat?
+    let code ← code.mapM parseVInstr
+    let inner ← inner.mapM parseVFn
+    pure (.mk 0 mx code ns recs up inner)
   | _ => none
 
 def handle : List Sexp → String
@@ -75,6 +119,15 @@ def handle : List Sexp → String
       let toks := (flat d).filter (fun t => match t with | .atom _ => false | _ => true)
       answerDe (toks.take k)
     | _, _ => "bad-request"
+  | [.atom "operands", f] =>
+    match parseVFn f with
+    | some f => if LoadVerify.operandsOkDeep f then "accept" else "reject"
+    | none => "bad-request"
+  | [.atom "fields", .str name] =>
+    match ModuleRec.fieldsOf Generated.ModuleFields.structs name with
+    | some fis =>
+      "(" ++ " ".intercalate ((fis.filter (fun f => !f.skipSer)).map (fun f => Sexp.quote f.name)) ++ ")"
+    | none => "unknown-struct"
   | [.atom "globals", .list defined, .list wanted] =>
     match defined.mapM Sexp.str?, wanted.mapM Sexp.str? with
     | some ds, some ws =>
